@@ -15,7 +15,9 @@ import (
 // Engine c33: internal/sleep WindowCalculator (NextWindow, GetWindowInfo, IsInWindow,
 // TimeUntilWindow, PreviousWindow) on explicit instants.
 //
-//	w <agentID:32 hex> <cycle ns> <window ns> <tolerance ns> <epoch ns> <t ns>
+//	reset <cycle ns> <window ns> <tolerance ns> <epoch ns>      -> ok  (ONE calculator for the following q ops)
+//	q <agentID:32 hex> <t ns>                                    -> as w, asked of the case's calculator
+//	w <agentID:32 hex> <cycle ns> <window ns> <tolerance ns> <epoch ns> <t ns>   (fresh calculator)
 //	  -> ok <nextS> <nextE> <infoS> <infoE> <safeS> <safeE> <mid> <timeUntil> <active> <isIn> <tuw> <prevS> <prevE>
 //
 // Instants are decimal nanoseconds since the Unix epoch (arbitrary precision, may be negative).
@@ -42,21 +44,38 @@ func c33Big(s string) *big.Int {
 	return v
 }
 
+// c33Calc is the ONE calculator of the current case (`reset`), asked again and again by `q` ops.
+var c33Calc *sleep.WindowCalculator
+
+func c33Cfg(f []string) sleep.WindowConfig {
+	return sleep.WindowConfig{
+		CycleLength:    time.Duration(c33Big(f[0]).Int64()),
+		WindowLength:   time.Duration(c33Big(f[1]).Int64()),
+		ClockTolerance: time.Duration(c33Big(f[2]).Int64()),
+		Epoch:          c33Time(c33Big(f[3])),
+	}
+}
+
 func c33Run(line string) string {
 	f := fields(line)
-	if len(f) != 7 || f[0] != "w" {
+	var id identity.AgentID
+	var now time.Time
+	var calc *sleep.WindowCalculator
+	switch {
+	case len(f) == 5 && f[0] == "reset":
+		c33Calc = sleep.NewWindowCalculator(c33Cfg(f[1:]))
+		return "ok"
+	case len(f) == 3 && f[0] == "q" && c33Calc != nil:
+		copy(id[:], unhexTok(f[1]))
+		now = c33Time(c33Big(f[2]))
+		calc = c33Calc
+	case len(f) == 7 && f[0] == "w":
+		copy(id[:], unhexTok(f[1]))
+		now = c33Time(c33Big(f[6]))
+		calc = sleep.NewWindowCalculator(c33Cfg(f[2:6]))
+	default:
 		return "bad-op"
 	}
-	var id identity.AgentID
-	copy(id[:], unhexTok(f[1]))
-	cfg := sleep.WindowConfig{
-		CycleLength:    time.Duration(c33Big(f[2]).Int64()),
-		WindowLength:   time.Duration(c33Big(f[3]).Int64()),
-		ClockTolerance: time.Duration(c33Big(f[4]).Int64()),
-		Epoch:          c33Time(c33Big(f[5])),
-	}
-	now := c33Time(c33Big(f[6]))
-	calc := sleep.NewWindowCalculator(cfg)
 	ns, ne := calc.NextWindow(id, now)
 	info := calc.GetWindowInfo(id, now)
 	in := calc.IsInWindow(id, now)
@@ -189,6 +208,68 @@ func c33Gen(w *bufio.Writer, seed int64, tier string) {
 			t.Add(far, big.NewInt(d))
 		}
 		fmt.Fprintf(w, "w %s %d %d %d %s %s\n", hexTok(id[:]), C, W, tol, ep.String(), t.String())
+	}
+	// Stateful cases: one calculator queried many times, NON-monotonically in time (later, then one or
+	// more cycles earlier, the same instant twice, before the epoch) with agent ids interleaved; the
+	// answer must not depend on what was asked before.
+	ncase := 120
+	if tier == "thorough" {
+		ncase = 4000
+	}
+	for c := 0; c < ncase; c++ {
+		C := cycles[r.intn(len(cycles)-1)] // not 2^62
+		if r.chance(30) {
+			C = int64(r.u64()%uint64(3600*sec)) + 1
+		}
+		W := int64(r.u64() % uint64(C))
+		if r.chance(15) {
+			W = C
+		}
+		tol := int64(r.u64() % uint64(C/4+1))
+		ep := c33Big(epochs[r.intn(len(epochs))])
+		epEff := new(big.Int).Set(ep)
+		if ep.String() == "-62135596800000000000" {
+			epEff = big.NewInt(0)
+		}
+		fmt.Fprintf(w, "reset %d %d %d %s\n", C, W, tol, ep.String())
+		var ids [3][16]byte
+		for j := 1; j < 3; j++ {
+			copy(ids[j][:], r.bytes(16))
+		}
+		nid := 1 + r.intn(3)
+		k := int64(r.intn(9) - 4)
+		var last *big.Int
+		lastID := 0
+		for q := 0; q < 6+r.intn(25); q++ {
+			idx := r.intn(nid)
+			var t *big.Int
+			switch x := r.intn(100); {
+			case x < 12 && last != nil: // the same instant again (same or other agent)
+				t = last
+				if r.chance(70) {
+					idx = lastID
+				}
+			case x < 45: // earlier: back by one or more cycles, or just a little
+				k -= int64(r.pick(1, 1, 2, 3, 10))
+				if r.chance(30) {
+					idx = lastID
+				}
+			case x < 80: // later
+				k += int64(r.pick(0, 1, 1, 2, 5))
+			default: // jump across the epoch
+				k = -k - int64(r.intn(2))
+			}
+			if t == nil {
+				t = new(big.Int).Mul(big.NewInt(k), big.NewInt(C))
+				t.Add(t, epEff)
+				t.Add(t, big.NewInt(int64(r.u64()%uint64(C))))
+				if r.chance(30) && last != nil { // exactly one or two cycles before / after the previous instant
+					t = new(big.Int).Add(last, big.NewInt(C*int64(r.pick(-2, -1, -1, 1))))
+				}
+			}
+			fmt.Fprintf(w, "q %s %s\n", hexTok(ids[idx][:]), t.String())
+			last, lastID = t, idx
+		}
 	}
 }
 
